@@ -68,7 +68,7 @@ Insert(c, p, t, a) ==
 (*   now   the clock (last timestamp used; timestamps never decrease)       *)
 (*   pay   the payment control in memory      fee   the fee control         *)
 (*   dpay, dfee   what the persistent store holds for them                  *)
-(* Parameters P = [level, pay, fee, keep, persistFee]:                      *)
+(* Parameters P = [level, pay, fee, keep, persistFee, ns]:                      *)
 (*   level "struct"   a bare VelocityControl; Restart = serde round trip    *)
 (*                    through vls-persist's model                           *)
 (*         "approver" VelocityApprover over a refusing delegate; Restart =  *)
@@ -78,35 +78,60 @@ Insert(c, p, t, a) ==
 (*               commit Node::new_full installs FRESH controls (FALSE).     *)
 (*   persistFee  does check_onchain_tx persist the node state? (FALSE)      *)
 (***************************************************************************)
+(*   ns          number of NAMED payment hashes per kind (invoice / keysend) the requests may *)
+(*               re-use; a request with h = 0 carries a fresh, never repeated hash.  inv[i]  *)
+(*               is the amount registered in the node's `invoices` map for named hash i (-1: *)
+(*               none), dinv what the store holds: slots 1..ns invoices, ns+1..2ns keysends. *)
+NoInv(P)     == [i \in 1..(2 * P.ns) |-> -1]
 InitState(P) == [now |-> 0, pay |-> NewCtl(P.pay), fee |-> NewCtl(P.fee),
-                 dpay |-> NewCtl(P.pay), dfee |-> NewCtl(P.fee)]
+                 dpay |-> NewCtl(P.pay), dfee |-> NewCtl(P.fee), inv |-> NoInv(P), dinv |-> NoInv(P)]
 
-PayOps == {"Insert", "AddInvoice", "AddKeysend"}
+InvoiceOps == {"AddInvoice", "ProposeInvoice"}       \* Propose*: Approve::handle_proposed_* (has_payment
+KeysendOps == {"AddKeysend", "ProposeKeysend"}       \* shortcut, approving approver, then Node::add_*)
+PayOps == {"Insert"} \cup InvoiceOps \cup KeysendOps
 FeeOps == {"Onchain"}
+Slot(r, P) == IF r.op \in InvoiceOps THEN r.h ELSE P.ns + r.h
+Resp(ok)   == [ok |-> ok, err |-> FALSE]
+RespErr    == [ok |-> FALSE, err |-> TRUE]
+Code(resp) == IF resp.err THEN -1 ELSE IF resp.ok THEN 1 ELSE 0     \* as recorded by the harness
 
-\* request r = [op, dt, a]: advance the clock by dt, then call the entry point with amount a
+\* request r = [op, dt, a, h]: advance the clock by dt, then call the entry point with amount a
+\* (h > 0: for the payment with named hash h; h = 0: a fresh hash)
 Step(s, r, P) ==
   LET t == s.now + r.dt IN
   CASE r.op \in PayOps ->
-         \* add_invoice / add_keysend: insert into the payment control; on acceptance the whole
-         \* node state (both controls) is persisted, on refusal nothing is (Ok(false))
-         LET o == Insert(s.pay, P.pay, t, r.a) IN
-         [resp |-> [ok |-> o.ok],
+         IF P.level = "node" /\ r.h > 0 /\ s.inv[Slot(r, P)] # -1
+         THEN \* the hash is already in `invoices` (has_payment / the shortcut at the top of add_invoice
+              \* and add_keysend): answered without consulting the velocity control, nothing changes.
+              \* An invoice is identified by the hash of its signed bytes: another amount is "a different
+              \* invoice for the same payment hash" (error); a keysend is identified by its payment hash
+              \* alone, so another amount is answered true and the registered amount stays what it was.
+              IF r.op \in InvoiceOps /\ s.inv[Slot(r, P)] # r.a
+              THEN [resp |-> RespErr, s |-> [s EXCEPT !.now = t]]
+              ELSE [resp |-> Resp(TRUE), s |-> [s EXCEPT !.now = t]]
+         ELSE
+         \* add_invoice / add_keysend: insert into the payment control; on acceptance the payment is
+         \* registered and the whole node state is persisted, on refusal nothing is (Ok(false))
+         LET o   == Insert(s.pay, P.pay, t, r.a)
+             reg == IF r.h > 0 THEN [s.inv EXCEPT ![Slot(r, P)] = r.a] ELSE s.inv IN
+         [resp |-> Resp(o.ok),
           s |-> IF P.level # "node" THEN [s EXCEPT !.now = t, !.pay = o.c, !.dpay = o.c]
-                ELSE IF o.ok THEN [s EXCEPT !.now = t, !.pay = o.c, !.dpay = o.c, !.dfee = s.fee]
+                ELSE IF o.ok THEN [s EXCEPT !.now = t, !.pay = o.c, !.dpay = o.c, !.dfee = s.fee,
+                                            !.inv = reg, !.dinv = reg]
                 ELSE [s EXCEPT !.now = t, !.pay = o.c]]
     [] r.op \in FeeOps ->
-         \* check_onchain_tx: insert non_beneficial*1000 into the fee control; not persisted
+         \* check_onchain_tx: insert non_beneficial*1000 into the fee control
          LET o == Insert(s.fee, P.fee, t, r.a) IN
-         [resp |-> [ok |-> o.ok],
+         [resp |-> Resp(o.ok),
           s |-> IF o.ok /\ P.persistFee
-                THEN [s EXCEPT !.now = t, !.fee = o.c, !.dfee = o.c, !.dpay = s.pay]
+                THEN [s EXCEPT !.now = t, !.fee = o.c, !.dfee = o.c, !.dpay = s.pay, !.dinv = s.inv]
                 ELSE [s EXCEPT !.now = t, !.fee = o.c]]
     [] r.op = "Restart" ->
-         [resp |-> [ok |-> TRUE],
+         \* the invoices map is always restored from the store; the controls only if P.keep
+         [resp |-> Resp(TRUE),
           s |-> IF P.level # "node" THEN [s EXCEPT !.now = t]
-                ELSE IF P.keep THEN [s EXCEPT !.now = t, !.pay = s.dpay, !.fee = s.dfee]
-                ELSE [s EXCEPT !.now = t, !.pay = NewCtl(P.pay), !.fee = NewCtl(P.fee)]]
+                ELSE IF P.keep THEN [s EXCEPT !.now = t, !.pay = s.dpay, !.fee = s.dfee, !.inv = s.dinv]
+                ELSE [s EXCEPT !.now = t, !.pay = NewCtl(P.pay), !.fee = NewCtl(P.fee), !.inv = s.dinv]]
 
 (***************************************************************************)
 (* Equivalence of states.  insert() begins by rotating to "now", so a       *)
@@ -117,7 +142,8 @@ Step(s, r, P) ==
 (***************************************************************************)
 Norm(s, P) == [op |-> s.now % P.pay.B, of |-> s.now % P.fee.B,
                pay  |-> Rotate(s.pay,  P.pay, s.now).b, fee  |-> Rotate(s.fee,  P.fee, s.now).b,
-               dpay |-> Rotate(s.dpay, P.pay, s.now).b, dfee |-> Rotate(s.dfee, P.fee, s.now).b]
+               dpay |-> Rotate(s.dpay, P.pay, s.now).b, dfee |-> Rotate(s.dfee, P.fee, s.now).b,
+               inv |-> s.inv, dinv |-> s.dinv]
 
 (***************************************************************************)
 (* History (ghost) variables, computed from OBSERVATIONS only: the request  *)
@@ -130,7 +156,9 @@ Norm(s, P) == [op |-> s.now % P.pay.B, of |-> s.now % P.fee.B,
 W(p) == (p.K - 1) * p.B
 CapAdd(x, y) == IF x + y > TOP THEN TOP + 1 ELSE x + y
 InitHist(p) == Zeros(W(p) + 1)
-InitGhost(P) == [pay |-> InitHist(P.pay), fee |-> InitHist(P.fee)]
+\* seen[i]: named payment i has been answered `true` before, i.e. it IS approved: a later `true`
+\* for it is the same approval again (idempotent) and is not counted a second time
+InitGhost(P) == [pay |-> InitHist(P.pay), fee |-> InitHist(P.fee), seen |-> [i \in 1..(2 * P.ns) |-> FALSE]]
 
 Age(h, dt)   == [i \in 1..Len(h) |-> IF i - dt >= 1 THEN h[i - dt] ELSE 0]
 Credit(h, a) == [h EXCEPT ![1] = CapAdd(h[1], a)]
@@ -138,15 +166,17 @@ Credit(h, a) == [h EXCEPT ![1] = CapAdd(h[1], a)]
 Ghost(g, r, resp, P) ==
   LET gp == Age(g.pay, r.dt)
       gf == Age(g.fee, r.dt) IN
-  [pay |-> IF r.op \in PayOps /\ resp.ok THEN Credit(gp, r.a) ELSE gp,
-   fee |-> IF r.op \in FeeOps /\ resp.ok THEN Credit(gf, r.a) ELSE gf]
+  [pay |-> IF r.op \in PayOps /\ resp.ok /\ (r.h = 0 \/ ~g.seen[Slot(r, P)]) THEN Credit(gp, r.a) ELSE gp,
+   fee |-> IF r.op \in FeeOps /\ resp.ok THEN Credit(gf, r.a) ELSE gf,
+   seen |-> IF r.op \in PayOps /\ resp.ok /\ r.h > 0 THEN [g.seen EXCEPT ![Slot(r, P)] = TRUE] ELSE g.seen]
 
 \* one monitor at a time: the history of the control that is not monitored is not kept (on a
 \* broken implementation it could grow without bound and the product would never be exhausted)
 GhostFor(mon, g, r, resp, P) ==
   LET n == Ghost(g, r, resp, P) IN
   [pay |-> IF mon = "fee" THEN g.pay ELSE n.pay,
-   fee |-> IF mon = "pay" THEN g.fee ELSE n.fee]
+   fee |-> IF mon = "pay" THEN g.fee ELSE n.fee,
+   seen |-> n.seen]
 
 RECURSIVE CapSum(_, _, _)
 CapSum(h, i, j) == IF i > j THEN 0 ELSE CapAdd(CapSum(h, i + 1, j), h[i])
@@ -173,7 +203,8 @@ Inv_C12_windows(g, P) == WindowsOK(g.pay, P.pay) /\ WindowsOK(g.fee, P.fee)
 (* the harness (kind of real control, seconds per model second, msat per    *)
 (* model unit, epoch offset) + the request alphabet.                        *)
 (***************************************************************************)
-Req(op, dt, a) == [op |-> op, dt |-> dt, a |-> a]
+ReqH(op, dt, a, h) == [op |-> op, dt |-> dt, a |-> a, h |-> h]
+Req(op, dt, a) == ReqH(op, dt, a, 0)
 RestartReq == Req("Restart", 0, 0)
 
 AllDts(p)  == 0..(p.K * p.B + 1)
